@@ -131,6 +131,27 @@ class Analysis(object):
                 add.add(("ge",) + _norm({k: -v for k, v in d[0].items()}, -d[1]))
         return st | frozenset(add)
 
+    def side_safe(self, side, st):
+        """can this side of a comparison be read as a mathematical (non-wrapping) value?  32-bit sums of two variable
+        terms of the same sign may wrap; so may v + c without an upper bound on v and v - c without a lower bound"""
+        sc = strip_casts(side)
+        ln = linear(side)
+        if ln is None or sc.k != "bin" or (sc.t or "") not in ("int", "int32_t", "unsigned int", "uint32_t"):
+            return True
+        pos = [k for k, v in ln[0].items() if v > 0]
+        neg = [k for k, v in ln[0].items() if v < 0]
+        if len(pos) >= 2 or len(neg) >= 2:
+            return False
+        if len(ln[0]) == 1 and ln[1] != 0:
+            (v, cf), = ln[0].items()
+            facts = [(dict(f[1]), f[2]) for f in st if f[0] == "ge"]
+            if (cf > 0) == (ln[1] > 0):
+                # v + c: needs an upper bound  K - v >= 0
+                return any(set(f[0]) == {v} and f[0][v] < 0 for f in facts) or _atom_nonneg(v) and False
+            # v - c: needs a lower bound  v + K >= 0
+            return any(set(f[0]) == {v} and f[0][v] > 0 for f in facts)
+        return True
+
     def edge(self, st, blk, succ, cond, truth):
         c = flow.compare_of(cond, truth)
         if c is None:
@@ -141,13 +162,8 @@ class Analysis(object):
         # a comparison evaluated in 32-bit arithmetic says nothing about the mathematical values if a side can wrap:
         # two variable terms of the same sign added in an int/int32_t expression (at + n > count with n unbounded)
         for side in (l, r):
-            sc = strip_casts(side)
-            ln = linear(side)
-            if ln is not None and sc.k == "bin" and (sc.t or "") in ("int", "int32_t", "unsigned int", "uint32_t"):
-                pos = [k for k, v in ln[0].items() if v > 0]
-                neg = [k for k, v in ln[0].items() if v < 0]
-                if len(pos) >= 2 or len(neg) >= 2:
-                    return st
+            if not self.side_safe(side, st):
+                return st
         add = []
         if op == "==":
             for o in ("<=", ">="):
